@@ -15,6 +15,7 @@ mod r8;
 mod props;
 mod refsem;
 mod report;
+mod shells;
 mod view;
 
 use report::Tier;
@@ -54,6 +55,7 @@ fn main() {
         "C01" => props::c01::run(tier),
         "C02" => props::c02::run(tier),
         "C03" => props::c03::run(tier),
+        "C04" => props::c04::run(tier),
         "C05" => props::c05::run(tier),
         "C06" => props::c06::run(tier),
         "C08" => props::c08::run(tier),
